@@ -22,6 +22,17 @@ Print Assumptions C05_ne_is_negation.
 Theorem C05_eq_symmetric : forall {T} (O : ord T) a b, heq O a b = heq O b a.
 Proof. exact @heq_sym. Qed.
 Print Assumptions C05_eq_symmetric.
+(* == is an equivalence relation: reflexive, symmetric (above), transitive *)
+Theorem C05_eq_reflexive : forall {T} (O : ord T) a, heq O a a = true.
+Proof. exact @heq_refl. Qed.
+Print Assumptions C05_eq_reflexive.
+Theorem C05_eq_transitive : forall {T} (O : ord T) a b c, heq O a b = true -> heq O b c = true -> heq O a c = true.
+Proof. exact @heq_trans. Qed.
+Print Assumptions C05_eq_transitive.
+(* two histograms are == exactly when their lowest terms are the identical item list *)
+Theorem C05_eq_iff_same_lowest_terms : forall {T} (O : ord T) a b, heq O a b = true <-> lowest O a = lowest O b.
+Proof. exact @heq_same_lowest. Qed.
+Print Assumptions C05_eq_iff_same_lowest_terms.
 Theorem C05_scaled_copy_equal : forall {T} (O : ord T) k h, wf O h -> 0 < k ->
   heq O (map (fun oc => (fst oc, k * snd oc)) h) h = true.
 Proof. exact @heq_scale. Qed.
